@@ -3,9 +3,9 @@ from . import supcommon as S
 
 OCAML = S.OCAML
 GO = S.GO
-FAMILIES = "mixed,startup,reload,errs".split(",")
+FAMILIES = "mixed,startup,reload,errs,gatecancel".split(",")
 PROP = "props/C04.v"
-PROOFS = ["proofs/SupInv.v", "proofs/SupTrig.v", "proofs/SupResult.v"]
+PROOFS = ["proofs/SupInv.v", "proofs/SupTrig.v", "proofs/SupResult.v", "proofs/SupReports.v"]
 
 
 def run(run):
